@@ -95,8 +95,16 @@ func RunCase(run *vk.Run, w *world.World, c *coregen.Case, n int, armored bool, 
 	if armored {
 		in = armor.NewReader(in)
 	}
+	given := append([]age.Identity(nil), ids...)
 	r, derr := age.Decrypt(in, ids...)
 	run.Eval(1)
+	for i := range given {
+		// the caller's list is the caller's: a Decrypt that reorders it changes the order of consultation of the next call
+		if ids[i] != given[i] {
+			run.Violation(which+":identity-list-modified:"+sig, fmt.Sprintf("after Decrypt the caller's identity slice [%s] has a different order", strings.Join(c.Ids, ",")), rp)
+			break
+		}
+	}
 	if c.Opener > 0 {
 		if which != "C01" {
 			return
